@@ -81,6 +81,15 @@ CLAIMED = {
             "fill in par mode with the context's own byte width, wrapper impls forward both methods to every "
             "component, and the width/channel dispatch tables match the const arguments/divisors of the dispatched "
             "bodies (shift (4-BPS)*8, little-endian constructor). Converted values are not decided.", "4/C14"),
+    "C15": ("LAYOUT reader<->writer: field-width token sequences of every nom parser (EFFECT engine in reader mode) "
+            "vs the event sequence of the matching BitRepr::write + TABLE reader<->writer on all code tables + AGREE "
+            "dataflow (which read feeds which constructor argument) + WIDTH type rule on the decoder accumulator",
+            "Reader and writer agree on every field boundary, order and code for STREAMINFO, metadata header, frame "
+            "header, all 16/16/8/16 code tables incl. extra bytes, subframe header and type codes with order "
+            "formulas, raw samples, LPC parameters, residual (header, per-partition parameter, per-sample shape "
+            "incl. warm-up skipping in every partition), frame and stream framing (frames until end of input with "
+            "CRC checks on); decoded orders feed both warm-up and residual readers; the decoder predicts in 64 bits. "
+            "Value-level inversion and Decode arithmetic are not decided.", "4/C15"),
     "C19": ("ATTR: dataflow over the serde-derive generated Serialize/Deserialize/Visitor MIR bodies (absent-field "
             "arms, key tables, tag strings) + DEFAULTS: Default::default aggregates vs the constants the docs cite",
             "Narrow: for every field of the 8 config types an absent key takes the container default (or an equal "
